@@ -13,6 +13,7 @@
 -/
 import Mistletoe.Proofs.InertInline2
 import Mistletoe.Proofs.InertInline3
+import Mistletoe.Proofs.InertInline5
 namespace Mistletoe.Props.C14W
 open Mistletoe Mistletoe.Py Mistletoe.Scan Mistletoe.Block Mistletoe.Inline Mistletoe.InertInline Mistletoe.InertInline2 Mistletoe.InertInline3
 open Mistletoe.Html Mistletoe.Escape
@@ -46,6 +47,25 @@ theorem C14_prose_text4 (cfg : Document.Cfg) (hpar : .paragraph ∈ cfg.block.ty
     ∀ o : Opts, render o { kids := [.paragraph (proseInlines (ls.map strip)) 1], footnotes := [] } =
         "<p>".toList ++ escapeHtmlText o.dq o.sq (Document.joinNl (ls.map strip)) ++ "</p>\n".toList :=
   Mistletoe.Props.C14.C14_prose_text4 cfg hpar ht hc ls hne h1 hl hi gas
+
+/-- **End to end under `inertBody5`** (Proofs/InertInline5.lean): as `C14_prose_text4`, and a `<` before a letter, `/`, `!` or `?`
+    is allowed when no tag, comment, instruction, declaration or autolink can be completed: no `>` follows in the paragraph, or
+    - after a letter - the tag name is followed by neither `>`, `/>` nor whitespace and an attribute name, the scheme run is not
+    followed by `:` and the e-mail local part not by `@` (`a <b c`, `if i<n; then j>0`, `x </3 > y`). -/
+theorem C14_prose_text5 (cfg : Document.Cfg) (hpar : .paragraph ∈ cfg.block.types)
+    (ht : ∀ t ∈ cfg.span, inertClass t = true) (hc : cfg.span.count .lineBreak = 1)
+    (ls : List Str) (hne : ls ≠ []) (h1 : ∀ l ∈ ls, oneLine l = true)
+    (hl : ∀ l ∈ ls, inertLine l = true ∧ proseLine l = true)
+    (hi : Mistletoe.InertInline5.inertBody5 (Document.joinNl (ls.map strip)) = true) (gas : Nat) :
+    Document.parse cfg (gas + (cfg.block.types.length + 4)) ls.flatten =
+        .ok { kids := [.paragraph (proseInlines (ls.map strip)) 1], footnotes := [] } ∧
+    ∀ o : Opts, render o { kids := [.paragraph (proseInlines (ls.map strip)) 1], footnotes := [] } =
+        "<p>".toList ++ escapeHtmlText o.dq o.sq (Document.joinNl (ls.map strip)) ++ "</p>\n".toList :=
+  Mistletoe.Props.C14.C14_prose_text5 cfg hpar ht hc ls hne h1 hl hi gas
+
+/-- `inertBody4` implies `inertBody5` -/
+theorem C14_conditions_nested5 (s : Str) (h : inertBody4 s = true) : Mistletoe.InertInline5.inertBody5 s = true :=
+  Mistletoe.Props.C14.C14_inertBody5_weaker s h
 
 /-- `inertBody3` implies `inertBody4` -/
 theorem C14_conditions_nested4 (s : Str) (h : inertBody3 s = true) : inertBody4 s = true :=
